@@ -98,7 +98,7 @@ def data_event(inst, rng, prop="C01"):
         names[2] = names[1]                  # duplicated mnemonic
     for n, col in zip(names, cols):
         las.append_curve(n, col, unit="m" if n == "DEPT" else "")
-    null = rng.choice([-999.25, -9999, 1e30, 0, -9999.25])
+    null = rng.choice([-999.25, -9999, 1e30, 0, -9999.25, -99999.25, 2147483647, -999.2575, 1234567.5])      # (also > 6 significant digits)
     las.well["NULL"].value = null
     # a finite sample equal to NULL would legitimately come back as NaN: keep the data clear of the marker
     fmts = dict(pres.get("column_fmt", {}))
